@@ -669,3 +669,36 @@ package raft
 //@   at call r.fsm.Snapshot assert [snapshot-exact] fsmIndex == sfIndex[snapshot]
 //@   at call r.log.Compact assert [compact-label] arg0 == r.lastIncludedIndex && r.lastIncludedIndex == lastAppliedEntry.Index && r.lastIncludedTerm == lastAppliedEntry.Term && r.lastIncludedIndex <= r.lastApplied
 //@   at before-assign r.lastIncludedIndex assert [included-monotone] newval > r.lastIncludedIndex
+
+// ===========================================================================================
+// C12 (a): the bundled log refines the Log interface contract
+// ===========================================================================================
+// Representation invariant of an open persistentLog, and its abstraction to the view
+// (Lfirst, Llast, Lterm, Ltyp, Ldata) used by the interface contract:
+//   Lfirst = entries[0].Index, Llast = entries[len-1].Index, Lterm[Lfirst+k] = entries[k].Term ...
+
+//@ spec logRI(l) = l.file != nil && len(l.entries) >= 1 && forall k int :: 0 <= k && k < len(l.entries) ==> l.entries[k] != nil && l.entries[k].Index == l.entries[0].Index + k
+//@ spec absFirst(l) = l.entries[0].Index
+//@ spec absLast(l) = l.entries[0].Index + len(l.entries) - 1
+//@ spec absContains(l, i) = absFirst(l) < i && i <= absLast(l)
+//@ spec sameAbove(l, lo) = forall k int :: lo <= k && k < len(l.entries) ==> l.entries[k] == old(l.entries[k])
+
+//@ func persistentLog.Contains
+//@   requires logRI(l)
+//@   ensures [spec] result == absContains(l, index)
+//@ func persistentLog.LastIndex
+//@   requires logRI(l)
+//@   ensures [spec] result == absLast(l)
+//@ func persistentLog.NextIndex
+//@   requires logRI(l)
+//@   ensures [spec] result == absLast(l) + 1
+//@ func persistentLog.LastTerm
+//@   requires logRI(l)
+//@   ensures [spec] result == l.entries[len(l.entries)-1].Term
+//@ func persistentLog.Size
+//@   requires logRI(l)
+//@   ensures [spec] result == absLast(l) - absFirst(l)
+//@ func persistentLog.GetEntry
+//@   requires l.file != nil ==> logRI(l)
+//@   ensures [found] l.file != nil && absContains(l, index) ==> err == nil && result0 != nil && result0 == l.entries[index - absFirst(l)] && result0.Index == index
+//@   ensures [missing] l.file == nil || !absContains(l, index) ==> err != nil && result0 == nil
